@@ -30,13 +30,13 @@ def _opnames():
     return _OPNAMES
 
 
-def _generate(text, name):
+def _generate(text, name, options=None):
     import pymoca.parser
     from pymoca.backends.casadi import generator
     tree = pymoca.parser.parse(text)
     if tree is None:
         raise SyntaxError("parse returned None")
-    return generator.generate(tree, name)
+    return generator.generate(tree, name, options)
 
 
 def _peel(e):
@@ -99,7 +99,7 @@ def _num(x):
 def run_model(case):
     import numpy as np
     try:
-        m = _generate(case["text"], case["name"])
+        m = _generate(case["text"], case["name"], case.get("options"))
     except Exception as e:  # noqa - the class is the observation
         return {"generate": "raised", "exc": type(e).__name__, "msg": str(e)[:300]}
     out = {"generate": "ok", "dae": [], "init": [],
